@@ -145,3 +145,19 @@ Definition sched_first (gpus : list xgpu) (spread : bool) (np : Z) (mp : Z -> mo
 
 (** what NewLlamaServer then computes for the GPUs it was handed *)
 Definition plan_for (chosen : list xgpu) (m : model) (o : opts) : result := estimate (map x_g chosen) m o.
+
+(** ** processPending, CPU branch (one inventory entry of library "cpu") and maybeFindCPURunnerToUnload *)
+(** numParallel: OLLAMA_NUM_PARALLEL (0 = unset), 1 for embedding models, defaultParallel when still <= 0 *)
+Definition cpu_parallel (np_env : Z) (emb : bool) : Z :=
+  let np := if emb then 1%Z else np_env in
+  if (np <=? 0)%Z then default_parallel else np.
+
+Inductive cpu_action := CpuLoad (p : Z) | CpuEvict.
+
+(** NumCtx is scaled by numParallel BEFORE the fit check: [mp p] are the inputs for NumCtx = origNumCtx * p, and
+    maybeFindCPURunnerToUnload passes NumCtx / origNumCtx = p as the parallel setting *)
+Definition sched_cpu (loaded : nat) (g : xgpu) (np_env : Z) (emb : bool) (mp : Z -> model) (o : opts) : cpu_action :=
+  let p := cpu_parallel np_env emb in
+  if Nat.eqb loaded 0 then CpuLoad p
+  else if r_total (estimate [x_g g] (mp p) o) <=? x_free g then CpuLoad p
+  else CpuEvict.
